@@ -1,0 +1,34 @@
+//go:build verif
+
+package node
+
+// Verification hooks (build tag `verif`). Add-only accessors for the
+// supervisor's unexported bookkeeping; call them on the supervisor machine's
+// own goroutine (handlers, tracers, Eval).
+
+// VerifPool is a snapshot of the worker map.
+type VerifPool struct {
+	Tracked int
+	Ready   int
+	Initing int
+	// Errs are the error counts (long-term cache) of tracked workers by address.
+	Errs  map[string]int
+	Addrs []string
+	MinEff int
+}
+
+// VerifPoolSnapshot reads len(workers), readyWorkers(), min().
+func VerifPoolSnapshot(s *Supervisor) VerifPool {
+	p := VerifPool{
+		Tracked: len(s.workers),
+		Ready:   len(s.readyWorkers()),
+		Initing: len(s.initingWorkers()),
+		Errs:    map[string]int{},
+		MinEff:  s.min(),
+	}
+	for addr, w := range s.workers {
+		p.Errs[addr] = w.errs.ItemCount()
+		p.Addrs = append(p.Addrs, addr)
+	}
+	return p
+}
